@@ -137,9 +137,10 @@ TIGHT_HEAT = dict(tol_p=1e-10, tol_m=1e-10, tol_T=1e-8, tol_res=1e-6, iter=200, 
 
 
 class SolveResult:
-    def __init__(self, status, exc=None):
+    def __init__(self, status, exc=None, returned=False):
         self.status = status   # "ok" | "not_converged" | "rejected" | "crash"
         self.exc = exc
+        self.returned = returned or status == "ok"    # pipeflow returned normally (also for a state classified "rejected")
 
     @property
     def ok(self):
@@ -152,6 +153,23 @@ def solve(net, **opts):
     from pandapipes.pf.pipeflow_setup import PipeflowNotConverged
     try:
         pp.pipeflow(net, **opts)
+        # pandapipes itself declares a converged state "physically incorrect" when the (gauge) pressure of a junction is
+        # negative (UserWarning in Junction.extract_results; Newton can even end in the mirror root of the gas equations
+        # with negative ABSOLUTE pressures, seen down to -35 bar on over-loaded nets). The same happens unnoticed at the
+        # internal nodes of multi-section pipes (seen: -2.03 bar inside a pipe whose ends are at -0.19 / 0.46 bar, which
+        # makes its reported dp_friction_loss_bar 4.33 instead of 0.65 bar). Such a state is classified like the documented
+        # rejection and never compared; the criterion is the library's own, extended to the internal nodes.
+        try:
+            from pandapipes.idx_node import PINIT
+            pj = net.res_junction.p_bar.values.astype(float)
+            pn = net["_pit"]["node"][:, PINIT] if "_pit" in net else np.zeros(0)
+            act = net["_lookups"]["node_active_hydraulics"] if "node_active_hydraulics" in net.get("_lookups", {}) else None
+            if act is not None and len(act) == len(pn):
+                pn = pn[act]
+            if (len(pj) and np.nanmin(np.where(np.isnan(pj), 0.0, pj)) < 0) or (len(pn) and np.nanmin(np.where(np.isnan(pn), 0.0, pn)) < 0):
+                return SolveResult("rejected", UserWarning("negative pressure in the returned state"), returned=True)
+        except (AttributeError, KeyError, ValueError, TypeError):
+            pass
         return SolveResult("ok")
     except PipeflowNotConverged as e:
         return SolveResult("not_converged", e)
@@ -190,6 +208,66 @@ def reload_net(net, how):
 
 
 RELOADS = ["pickle", "json", "deepcopy", "touch"]
+
+
+PRELUDES = ["reuse_temperature", "reuse_setpoints", "reuse_loads", "failed_run", "touched_results"]
+
+
+def solve_after_prelude(rec, opts, prelude):
+    """Build the net of `rec` and calculate it with `opts` - but on a net object that has a history, the way nets are used
+    in time series and controller loops. The result must obey the same laws as a calculation on a fresh net. Returns
+    (net, SolveResult of the final calculation).
+
+    prelude: None | "reuse_temperature" | "reuse_setpoints" | "reuse_loads": an earlier calculation of the same net with other
+    values (fluid temperature / set-points of compressors, controllers, pumps / loads) using only_update_hydraulic_matrix +
+    reuse_internal_data, then the values of `rec` are put back and the final calculation reuses the internal data (the
+    structure of the net never changes); "failed_run": an earlier calculation that fails (iteration limit 1, zero tolerance);
+    "touched_results": an earlier successful calculation whose result tables were post-processed by the user (one column
+    re-assigned), so that pandas stores them differently."""
+    net = build(rec)
+    if not prelude:
+        return net, solve(net, **opts)
+    if prelude.startswith("reuse_"):
+        keep = {t: net[t].copy(deep=True) for t in net.keys() if hasattr(net[t], "columns") and not t.startswith(("res_", "_"))}
+        what = prelude[6:]
+        if what == "temperature":
+            net.junction["tfluid_k"] = net.junction["tfluid_k"] + 17.0
+            if "ext_grid" in net and len(net.ext_grid):
+                net.ext_grid["t_k"] = net.ext_grid["t_k"] + 17.0
+        elif what == "loads":
+            for t in ("sink", "source", "mass_storage"):
+                if t in net and len(net[t]):
+                    net[t]["mdot_kg_per_s"] = net[t]["mdot_kg_per_s"] * 0.6
+            if "heat_consumer" in net and len(net.heat_consumer):
+                net.heat_consumer["controlled_mdot_kg_per_s"] = net.heat_consumer["controlled_mdot_kg_per_s"] * 0.8
+        else:
+            if "compressor" in net and len(net.compressor):
+                net.compressor["pressure_ratio"] = 1.0 + (net.compressor["pressure_ratio"] - 1.0) * 0.5
+            if "flow_control" in net and len(net.flow_control):
+                net.flow_control["controlled_mdot_kg_per_s"] = net.flow_control["controlled_mdot_kg_per_s"] * 0.5
+                net.flow_control["control_active"] = ~net.flow_control["control_active"].astype(bool)
+            if "press_control" in net and len(net.press_control):
+                net.press_control["controlled_p_bar"] = net.press_control["controlled_p_bar"] * 0.9
+            if "pump" in net and len(net.pump):
+                net.pump["std_type"] = [{"P1": "P2", "P2": "P3", "P3": "P1"}.get(x, x) for x in net.pump["std_type"]]
+            if "circ_pump_pressure" in net and len(net.circ_pump_pressure):
+                net.circ_pump_pressure["plift_bar"] = net.circ_pump_pressure["plift_bar"] * 0.7
+            if "heat_exchanger" in net and len(net.heat_exchanger):
+                net.heat_exchanger["qext_w"] = net.heat_exchanger["qext_w"] * 0.5
+        ro = dict(opts, only_update_hydraulic_matrix=True, reuse_internal_data=True)
+        solve(net, **ro)                       # whatever its outcome
+        for t, df in keep.items():
+            net[t] = df
+        return net, solve(net, **ro)
+    if prelude == "failed_run":
+        solve(net, **dict({k: v for k, v in opts.items() if k != "iter"}, max_iter_hyd=1, max_iter_therm=1, max_iter_bidirect=1,
+                          tol_m=0.0))
+        return net, solve(net, **opts)
+    if prelude == "touched_results":
+        solve(net, **opts)
+        reload_net(net, "touch")
+        return net, solve(net, **opts)
+    raise ValueError(prelude)
 
 
 def exc_sig(e):
